@@ -265,6 +265,8 @@ def robustly_simple(pts, eps):
                 return False
         if i + 1 < len(legs) and legs[i].distance(Point(pts[i + 2])) <= eps:
             return False
+        if i + 1 < len(legs) and legs[i + 1].distance(Point(pts[i])) <= eps:
+            return False            # the next leg runs back over the start of this one (a longer fold-back)
     return True
 
 
